@@ -36,8 +36,48 @@ fn user_oneway3(parameters: &RawParameters, ctx: &dyn Context) -> Result<Op, Err
     Op::plain(parameters, InnerOp(add3_fwd), None, &INV_GAMUT, ctx)
 }
 
+#[rustfmt::skip]
+const PROBE_GAMUT: [OpParameter; 8] = [
+    OpParameter::Flag    { key: "inv" },
+    OpParameter::Flag    { key: "flag" },
+    OpParameter::Natural { key: "natural", default: Some(7) },
+    OpParameter::Integer { key: "integer", default: Some(-7) },
+    OpParameter::Real    { key: "real",    default: Some(1.25) },
+    OpParameter::Series  { key: "series",  default: Some("1,2,3") },
+    OpParameter::Text    { key: "text",    default: Some("deftext") },
+    OpParameter::Texts   { key: "names",   default: Some("foo, bar") },
+];
+#[rustfmt::skip]
+const PROBEREQ_GAMUT: [OpParameter; 6] = [
+    OpParameter::Natural { key: "req_natural", default: None },
+    OpParameter::Integer { key: "req_integer", default: None },
+    OpParameter::Real    { key: "req_real",    default: None },
+    OpParameter::Series  { key: "req_series",  default: None },
+    OpParameter::Text    { key: "req_text",    default: None },
+    OpParameter::Texts   { key: "req_names",   default: None },
+];
+fn user_probe(parameters: &RawParameters, ctx: &dyn Context) -> Result<Op, Error> {
+    Op::plain(parameters, InnerOp(add2_fwd), Some(InnerOp(add2_inv)), &PROBE_GAMUT, ctx)
+}
+fn user_probereq(parameters: &RawParameters, ctx: &dyn Context) -> Result<Op, Error> {
+    // one required parameter at a time: the others get a default when absent
+    let given = parameters.definition.split_into_parameters();
+    let gamut: Vec<OpParameter> = PROBEREQ_GAMUT
+        .iter()
+        .filter(|p| match p {
+            OpParameter::Natural { key, .. } | OpParameter::Integer { key, .. } | OpParameter::Real { key, .. }
+            | OpParameter::Series { key, .. } | OpParameter::Text { key, .. } | OpParameter::Texts { key, .. } => given.contains_key(*key) || *key == "req_real",
+            _ => true,
+        })
+        .cloned()
+        .collect();
+    Op::plain(parameters, InnerOp(add2_fwd), Some(InnerOp(add2_inv)), &gamut, ctx)
+}
+
 pub fn user_ctor(tag: &str) -> Option<OpConstructor> {
     match tag {
+        "u:probe" => Some(OpConstructor(user_probe)),
+        "u:probereq" => Some(OpConstructor(user_probereq)),
         "u:add2" => Some(OpConstructor(user_add2)),
         "u:oneway3" => Some(OpConstructor(user_oneway3)),
         _ => None,
